@@ -45,6 +45,7 @@ type Contract struct {
 	Trusted    bool // contract assumed, body not verified (listed in evidence)
 	Pure       bool // may be called from spec expressions
 	Lemmas     []*LemmaUse
+	Uses       []*LemmaUse // axioms/lemmas assumed in universally quantified form for the whole unit
 	Asserts    []*Clause // Label = anchor
 	Witness    []*Clause // definitions of skolem functions used in ensures (assumed at return; the function symbol must be fresh)
 	Bounds     []string
@@ -96,7 +97,7 @@ type SpecFile struct {
 var clauseKeywords = map[string]bool{
 	"func": true, "property": true, "returns": true, "requires": true, "ensures": true, "invariant": true,
 	"let": true, "modifies": true, "nopanic": true, "inline": true, "trusted": true, "pure": true, "lemma": true,
-	"assert": true, "witness": true, "split": true, "define": true, "family": true, "deflemma": true, "axiom": true, "end": true, "bound": true, "note": true,
+	"assert": true, "witness": true, "uses": true, "split": true, "define": true, "family": true, "deflemma": true, "axiom": true, "end": true, "bound": true, "note": true,
 }
 
 func ParseSpecFile(path string) (*SpecFile, error) {
@@ -394,6 +395,15 @@ func ParseSpecFile(path string) (*SpecFile, error) {
 					return nil, perr(fmt.Errorf("lemma use must be a call"))
 				}
 				cur.Lemmas = append(cur.Lemmas, &LemmaUse{Anchor: anchor, Name: e.Name, Args: e.Args, Guard: guard, Line: rc.line})
+			case "uses":
+				e, err := ParseExpr(rc.text)
+				if err != nil {
+					return nil, perr(err)
+				}
+				if e.Kind != "call" {
+					return nil, perr(fmt.Errorf("uses name(sample args)"))
+				}
+				cur.Uses = append(cur.Uses, &LemmaUse{Anchor: "entry", Name: e.Name, Args: e.Args, Line: rc.line})
 			case "witness":
 				lab, rest := splitLabel(rc.text)
 				e, err := ParseExpr(rest)
@@ -591,8 +601,9 @@ func (p *parser) isId(s string) bool {
 func bin(op string, a, b *Expr) *Expr { return &Expr{Kind: "binop", Name: op, Args: []*Expr{a, b}} }
 
 func (p *parser) parseIff() (*Expr, error) {
-	// forall x:Sort :: body
-	if p.isId("forall") {
+	// forall x:Sort :: body   /   exists x:Sort :: body
+	if p.isId("forall") || p.isId("exists") {
+		isExists := p.isId("exists")
 		p.next()
 		v := p.next()
 		if v.kind != "id" {
@@ -614,7 +625,13 @@ func (p *parser) parseIff() (*Expr, error) {
 		if err != nil {
 			return nil, err
 		}
-		return &Expr{Kind: "forall", Name: v.text, Str: srt.text, Args: []*Expr{body}}, nil
+		q := &Expr{Kind: "forall", Name: v.text, Str: srt.text, Args: []*Expr{body}}
+		if isExists {
+			// exists x. b  ==  !(forall x. !b)
+			q.Args = []*Expr{{Kind: "unop", Name: "!", Args: []*Expr{body}}}
+			return &Expr{Kind: "unop", Name: "!", Args: []*Expr{q}}, nil
+		}
+		return q, nil
 	}
 	l, err := p.parseImp()
 	if err != nil {
